@@ -149,3 +149,61 @@ def solve (s : Solver) (c : Circuit) (ord : Ord) (as : List (Name × Bool)) : Ex
       | some σ => .ok (some (fun n => σ (.node n)))
 
 end CG
+
+namespace CG
+
+/-- the blocking clause `[-model[id(n) - 1] for n in startpoints]` -/
+def blockingClause (σ : Var → Bool) (sp : List Name) : Clause :=
+  sp.map (fun n => { pos := !σ (.node n), v := .node n })
+
+/-- the `while solver.solve()` loop of `model_count` -/
+def modelCountGo (s : Solver) (sp : List Name) : Nat → CNF → Nat → Option Nat
+  | 0, _, _ => none
+  | fuel + 1, f, count =>
+    match s f with
+    | none => some count
+    | some σ => modelCountGo s sp fuel (f ++ [blockingClause σ sp]) (count + 1)
+
+/-- `sat.model_count(c, assumptions)`; `ord` also enumerates `c.startpoints()` -/
+def modelCount (s : Solver) (c : Circuit) (ord : Ord) (as : List (Name × Bool)) : Except Outcome Nat :=
+  if c.nodes.any (fun p => p.2.ty.isNone) then .error .keyError else
+  match cnf c ord with
+  | .error e => .error e
+  | .ok f =>
+    if as.any (fun p => !c.has p.1) then .error .valueError
+    else
+      let sp := ord c.startpointsAll
+      match modelCountGo s sp (2 ^ sp.length + 1) (f ++ assumptionClauses as) 0 with
+      | some n => .ok n
+      | none => .error .fuel
+
+/-- numeric literal under the pool numbering -/
+def litNum (pool : List Var) (l : Lit) : Int :=
+  if l.pos then (numbering pool l.v : Int) else -(numbering pool l.v : Int)
+
+/-- the DIMACS text `approx_model_count` writes in its default (plain-clause) mode -/
+def dimacs (c : Circuit) (ord : Ord) (as : List (Name × Bool)) (sp : List Name) : Except Outcome String :=
+  match cnf c ord, idCalls c ord with
+  | .ok f0, .ok calls =>
+    if as.any (fun p => !c.has p.1) then .error .valueError else
+    let f := f0 ++ assumptionClauses as
+    let pool := dedupVars (calls ++ (assumptionClauses as).flatMap (·.map (·.v)))
+    let nv := (f.flatMap (·.map (fun l => numbering pool l.v))).foldl max 0
+    let encInps := " ".intercalate (sp.map (fun n => toString (numbering pool (.node n))))
+    let clauseStr := "\n".intercalate (f.map (fun cl => " ".intercalate (cl.map (fun l => toString (litNum pool l))) ++ " 0"))
+    .ok ("c ind " ++ encInps ++ " 0\np cnf " ++ toString nv ++ " " ++ toString f.length ++ "\n" ++ clauseStr ++ "\n")
+  | .error e, _ => .error e
+  | _, .error e => .error e
+
+end CG
+
+namespace CG
+
+/-- `props.signal_probability(c, n, approx=False)` as the exact pair (count, number of startpoints of the cone):
+    the value returned by the code is `count / 2 ^ k`.  `cone` = `{n} | c.transitive_fanin(n)` in iteration order. -/
+def signalProbability (s : Solver) (sub : Circuit) (n : Name) (ord : Ord) : Except Outcome (Nat × Nat) :=
+  match modelCount s sub ord [(n, true)] with
+  | .error e => .error e
+  | .ok cnt => .ok (cnt, sub.startpointsAll.length)
+
+end CG
